@@ -484,6 +484,26 @@ func delHeld(h []heldItem, c int) ([]heldItem, bool) {
 	return h, false
 }
 
+// rebase: a callee summary is shared by all callers that enter it with the same
+// lock classes, so the acquisition sites in its exit sets are those of the first
+// caller; keep this caller's own sites for the locks it already held.
+func rebase(entry, exit []heldItem) []heldItem {
+	out := make([]heldItem, 0, len(exit))
+	used := make([]bool, len(entry))
+	for _, x := range exit {
+		repl := x
+		for i, y := range entry {
+			if !used[i] && y.class == x.class {
+				used[i] = true
+				repl = y
+				break
+			}
+		}
+		out = append(out, repl)
+	}
+	return out
+}
+
 func (a *analyzer) exemptFunc(fn *ssa.Function) bool {
 	if len(a.cfg.ExemptFuncs) == 0 {
 		return false
@@ -582,7 +602,8 @@ func (a *analyzer) analyze(fn *ssa.Function, held []heldItem, virt bool, chain *
 					n1++
 				}
 			}
-			if n1 > n0 {
+			if n1 > n0 && h.fn == fn {
+				// reported at the function that executed the Lock; callers just inherit the state
 				leaked = h.class
 				k := shortName(fn.String()) + "|" + a.classNames[h.class]
 				if _, ok := a.leaks[k]; !ok {
@@ -816,7 +837,7 @@ func (a *analyzer) doCall(fn *ssa.Function, ins ssa.CallInstruction, cur []state
 			}
 			exits := a.analyze(c, s.held, virt, &chainNode{parent: chain, fn: c, site: ins.Pos(), kind: kind})
 			for _, e := range exits {
-				out = append(out, state{held: e, defers: s.defers})
+				out = append(out, state{held: rebase(s.held, e), defers: s.defers})
 			}
 		}
 	}
